@@ -534,4 +534,29 @@ theorem updatePartialCandle_store (e : Engine M) (sym : Nat) (c : Candle) (hs : 
     rw [← hstep.1]
     exact ih (fun t ht => htf t (List.mem_cons_of_mem _ ht)) _ hstep.2
 
+
+theorem lookup_filter_ne {β} (l : List (Nat × β)) (m m' : Nat) (h : m' ≠ m) :
+    (l.filter (fun p => p.1 ≠ m)).lookup m' = l.lookup m' := by
+  induction l with
+  | nil => rfl
+  | cons x xs ih =>
+    obtain ⟨k, v⟩ := x
+    by_cases hx : k = m
+    · have h1 : (m' == k) = false := by rw [hx]; exact beq_false_of_ne h
+      have hf : List.filter (fun p : Nat × β => p.1 ≠ m) ((k, v) :: xs) = List.filter (fun p : Nat × β => p.1 ≠ m) xs := by
+        rw [List.filter_cons]; simp [hx]
+      rw [hf, ih, List.lookup_cons, h1]
+    · have hf : List.filter (fun p : Nat × β => p.1 ≠ m) ((k, v) :: xs) = (k, v) :: List.filter (fun p : Nat × β => p.1 ≠ m) xs := by
+        rw [List.filter_cons]; simp [hx]
+      rw [hf, List.lookup_cons, List.lookup_cons, ih]
+
+theorem longOf_setLong_same (s : SymStore) (m : Nat) (cs : List Candle) : longOf (setLong s m cs) m = cs := by
+  simp [longOf, setLong]
+
+theorem longOf_setLong_other (s : SymStore) (m m' : Nat) (cs : List Candle) (h : m' ≠ m) :
+    longOf (setLong s m cs) m' = longOf s m' := by
+  unfold longOf setLong
+  have h1 : (m' == m) = false := beq_false_of_ne h
+  rw [List.lookup_cons, h1, lookup_filter_ne _ _ _ h]
+
 end StoreFrame
